@@ -141,6 +141,16 @@ def run(chk):
         chk.evaluations += 1
         if found > 4:
             break
+    # every one of the 2 x 1000 rows: the function never goes beyond its published extreme values (numpy scan over the coefficient
+    # tables re-read from the source; a candidate is confirmed with the real Calculate before it is reported)
+    for fam in ('Hill', 'Shekel'):
+        try:
+            hits, nrows = B.scan_all_rows(fam)
+        except Exception as e:  # noqa
+            chk.obligation('scan of all %s rows' % fam, False, '%s: %s' % (type(e).__name__, str(e)[:200])); continue
+        chk.evaluations += nrows
+        for k, msg, wit in hits[:3]:
+            found += chk.violation('table-row', msg, {'kind': 'row', 'family': fam, 'k': k, 'witness': wit})
     if not found:
         for key, v in res.items():
             if not v[0]:
